@@ -410,7 +410,22 @@ func TestVerif_C26(t *testing.T) {
 			}
 			sc := crashx.Scenario{
 				Property: "C26", Name: name, Base: base2, Sem: sem,
-				Backend: func(be *gatebe.Backend) { be.Ungated = map[backend.FileType]bool{backend.LockFile: true} },
+				Backend: func(be *gatebe.Backend) {
+					be.Ungated = map[backend.FileType]bool{backend.LockFile: true}
+					// Downloads do not fail here (they may be interrupted and repeated): to `repair snapshots` a
+					// tree that cannot be loaded IS a damaged tree, and a snapshot whose root is unreadable is
+					// removed by design - a failing Load would turn a healthy snapshot into a damaged one, which
+					// is outside the statement (interruption points of the save/remove sequence).
+					be.Alts = func(op *gatebe.Op) []string {
+						switch op.Kind {
+						case "Save", "Remove":
+							return []string{"ok", "err", "err-after"}
+						case "Load":
+							return []string{"ok", "retried"}
+						}
+						return []string{"ok", "err"}
+					}
+				},
 				Prepare: func(ctx context.Context, run *crashx.Run, be *gatebe.Backend) (any, error) {
 					run.Data = be
 					return nil, nil
